@@ -39,13 +39,20 @@ def is_special_decimal(d: dict) -> bool:
     return abs(adj) >= 27 or len(str(d["c"])) > 28
 
 
+def vdesc(case: dict) -> Any:
+    return [case.get("v"), case.get("ann"), case.get("env", []), case.get("sig")]
+
+
 def decimals_reaching(case: dict, xd: dict) -> List[dict]:
     """Decimal values that can reach a Decimal predicate: in the input, parsed from its strings, or
     predicate parameters"""
     out = [d for d in walk(xd) if d.get("t") == "decimal"]
-    tabs = oracle_mod.tables(xd, case["v"], case.get("env", []))
+    tabs = oracle_mod.tables(xd, vdesc(case))
     out += [e[1] for e in tabs["decimal"] if e[1] is not None]
-    out += [d for d in walk([case["v"], case.get("env", [])]) if d.get("t") == "decimal"]
+    out += [d for d in walk(vdesc(case)) if d.get("t") == "decimal"]
+    # ints are coerced exactly: a huge int becomes a Decimal with more digits than the context holds
+    out += [{"t": "decimal", "k": "fin", "neg": d["i"] < 0, "c": abs(d["i"]), "e": 0} for d in walk(xd)
+            if d.get("t") == "int" and abs(d["i"]) >= 10 ** 27]
     return out
 
 
@@ -54,7 +61,7 @@ def m_special_decimal(case: dict, xd: dict, what: str) -> bool:
     if "InvalidOperation" not in what and "TypeError" not in what:
         return False
     has_pred = False
-    for d in walk([case["v"], case.get("env", [])]):
+    for d in walk(vdesc(case)):
         if d.get("k") in ("Min", "Max", "MultipleOf", "EqualTo", "Choices") and \
                 any(x.get("t") == "decimal" for x in walk(d)):
             has_pred = True
@@ -71,7 +78,7 @@ def m_naive_aware(case: dict, xd: dict, what: str) -> bool:
     if "TypeError" not in what:
         return False
     bounds = []
-    for d in walk([case["v"], case.get("env", [])]):
+    for d in walk(vdesc(case)):
         if d.get("k") in ("Min", "Max") and d["v"].get("t") == "datetime":
             bounds.append(d["v"]["off"] is None)
     if not bounds:
@@ -79,7 +86,7 @@ def m_naive_aware(case: dict, xd: dict, what: str) -> bool:
     vals = [d["off"] is None for d in walk(xd) if d.get("t") == "datetime"]
     tabs = oracle_mod.tables(xd)
     vals += [e[1]["off"] is None for e in tabs["datetime"] if e[1] is not None]
-    vals += [d["off"] is None for d in walk([case["v"], case.get("env", [])]) if d.get("t") == "datetime"]
+    vals += [d["off"] is None for d in walk(vdesc(case)) if d.get("t") == "datetime"]
     return any(b != v for b in bounds for v in vals)
 
 
@@ -105,7 +112,7 @@ def m_float_nan_inf(case: dict, xd: Any, what: str) -> bool:
     """D11: a float nan / inf parameter of Min / Max / EqualTo / Choices ends up in the schema"""
     if "strict JSON" not in what and "valid Draft 2020-12 schema" not in what:
         return False
-    for d in walk([case["v"], case.get("env", [])]):
+    for d in walk(vdesc(case)):
         if d.get("k") in ("Min", "Max", "EqualTo", "Choices", "equals"):
             if any(x.get("t") == "float" and x.get("k") in ("nan", "inf") for x in walk(d)):
                 return True
